@@ -311,6 +311,12 @@ class Exec(SpecMixin, ExprMixin, CallMixin, BuiltinMixin, StmtMixin, EventMixin)
     self.node = node
     self.cur_mod = modinfo
     self.base_line = node.lineno
+    # a decorator can change what a call of the function does (caching, wrapping): only the ones whose
+    # meaning the engine models are accepted, anything else leaves the supported subset
+    for d in getattr(node, 'decorator_list', []):
+      txt = ast.unparse(d)
+      if txt not in ('property', 'staticmethod', 'classmethod', 'abc.abstractmethod') and not txt.startswith('functools.wraps('):
+        raise Unsupported('decorator @%s on %s is not modelled' % (txt, c.name))
     reset_known()
     self.register_loops(node)
     self.check_private(node)
@@ -524,6 +530,10 @@ def verify_event(world, contract, res, timeout_ms):
   if node is None:
     raise SpecError('target %s not found' % contract.name)
   res.func_hash = func_source_hash(node)
+  for d in getattr(node, 'decorator_list', []):
+    txt = ast.unparse(d)
+    if txt not in ('property', 'staticmethod', 'classmethod', 'abc.abstractmethod') and not txt.startswith('functools.wraps('):
+      raise Unsupported('decorator @%s on %s is not modelled' % (txt, contract.name))
   core.reset_fresh()
   impl = eventmod.run_event(world, contract, node, mi, Exec)
   spec_node = eventmod.parse_spec_program(contract.spec)
